@@ -342,28 +342,29 @@ def part_roundtrip(ctx, shard):
         for p in RT_EXPS:
             try:
                 w = u**p
-            except UnytError:
+            except Exception:  # noqa: BLE001  (what the algebra refuses or chokes on is C05's business; here only printed units are judged)
                 continue
             check_roundtrip(ctx, w, "pow", {"part": "roundtrip", "u": n1, "p": p})
         for n2, v in units.items():
-            for how, f in (("mul", lambda: u * v), ("div", lambda: u / v), ("div_sq", lambda: u / v**2), ("sqrt_mul", lambda: (u * v) ** 0.5)):
+            for how, f in (("mul", lambda: u * v), ("div", lambda: u / v), ("div_sq", lambda: u / v**2), ("sqrt_mul", lambda: (u * v) ** 0.5),
+                           ("unit-ratio-times", lambda: (v / v) * u), ("times-unit-ratio", lambda: u * (v / v)), ("over-unit-ratio", lambda: u / (v / v))):
                 try:
                     w = f()
-                except UnytError:
+                except Exception:  # noqa: BLE001  (what the algebra refuses or chokes on is C05's business; here only printed units are judged)
                     continue
                 case = {"part": "roundtrip", "u": n1, "v": n2, "how": how}
                 check_roundtrip(ctx, w, how, case)
                 if how in ("mul", "div"):
                     try:
                         sw = Unit(w.expr, w.base_value, w.base_offset, w.dimensions, w.registry).simplify()
-                    except UnytError:
+                    except Exception:  # noqa: BLE001  (what the algebra refuses or chokes on is C05's business; here only printed units are judged)
                         continue
                     check_roundtrip(ctx, sw, how + "+simplify", case)
         for c in (2, 0.5, 1e3, 1e-7, 12345.678):
             try:
                 q = unyt.unyt_quantity(c, u)
                 w = Unit(q, registry=r)
-            except UnytError:
+            except Exception:  # noqa: BLE001  (what the algebra refuses or chokes on is C05's business; here only printed units are judged)
                 continue
             check_roundtrip(ctx, w, "coef", {"part": "roundtrip", "u": n1, "c": c})
     ctx.sample({"roundtrip_of": shard[:3]})
